@@ -100,7 +100,11 @@ Values(env, T0, d) ==
     [] T.k = "STRING" -> StringValues(T, 20)
     [] T.k = "OID" -> OidValues
     [] T.k = "RELOID" -> RelOidValues
-    [] T.k \in {"SEQUENCE", "SET"} ->
+    [] IsIoSeq(T) ->
+         \* identifier and open type value agree with one row of the object set
+         LET rows == T.comps[2].t.comps
+         IN UNION {{<<Pres(IdVal(rows[i])), Pres(MkAlt(rows[i].n, x))>> : x \in Take(Values(env, rows[i].t, 2), 5)} : i \in DOMAIN rows}
+    [] T.k \in {"SEQUENCE", "SET"} /\ ~IsIoSeq(T) ->
          IF d = 0 THEN {} ELSE
          LET cs == AllComps(T)
              isAdd(i) == i > Len(T.comps)
@@ -151,12 +155,33 @@ Corruptions(env, T0, v) ==
          ELSE {Cyc(CharSamples(T), n, 0) : n \in BadSizes(T.size, 40)}
               \cup (IF v # <<>> /\ HasOutsideChar(T)
                     THEN {[v EXCEPT ![i] = OutsideChar(T)] : i \in {1, Len(v)}} ELSE {})
-    [] T.k \in {"SEQUENCE", "SET"} ->
+    [] T.k \in {"SEQUENCE", "SET"} /\ ~IsIoSeq(T) ->
          LET cs == AllComps(T)
          IN UNION {{[v EXCEPT ![i] = Pres(x)] : x \in Take(Corruptions(env, cs[i].t, v[i][1]), 4)} : i \in {j \in DOMAIN cs : IsPres(v[j])}}
+    [] IsIoSeq(T) -> {}
     [] T.k = "CHOICE" -> {MkAlt(AltOf(v), x) : x \in Take(Corruptions(env, CompByName(T, AltOf(v)).t, AltVal(v)), 4)}
     [] T.k \in {"SEQOF", "SETOF"} ->
          (IF v = <<>> THEN {} ELSE {Cyc(v, n, 0) : n \in BadSizes(T.size, 12)})
          \cup UNION {{[v EXCEPT ![i] = x] : x \in Take(Corruptions(env, T.t, v[i]), 3)} : i \in DOMAIN v}
+    [] OTHER -> {}
+\* ---- C18: values violating the component relation constraint ---------------------------------
+\* <<kind, value>>: the identifier replaced by a value that has no row in the object set ("ioc-norow") or by
+\* the identifier of another row ("ioc-mismatch"); the open type value stays what it was.  These are not
+\* values of the type; their encodings (the encoders do not look at the pairing) are decoder inputs.
+UnknownIds(rows) ==
+  IF OidRows(rows) THEN {<<1, 2>>, <<2, 999, 1>>, rows[1].oid \o <<1>>, SubSeq(rows[1].oid, 1, Len(rows[1].oid) - 1)} \ {rows[i].oid : i \in DOMAIN rows}
+  ELSE {IOfInt(x) : x \in {0, 4242, -7, 65536} \ {rows[i].id : i \in DOMAIN rows}}
+RECURSIVE IocCorruptions(_, _, _)
+IocCorruptions(env, T0, v) ==
+  LET T == Resolve(env, T0) IN
+  CASE IsIoSeq(T) ->
+         LET rows == IoRows(T) IN
+         {<<"ioc-norow", <<Pres(u), v[2]>>>> : u \in UnknownIds(rows)}
+         \cup {<<"ioc-mismatch", <<Pres(IdVal(rows[j])), v[2]>>>> : j \in {i \in DOMAIN rows : rows[i].n # AltOf(v[2][1])}}
+    [] T.k \in {"SEQUENCE", "SET"} ->
+         LET cs == AllComps(T)
+         IN UNION {{<<x[1], [v EXCEPT ![i] = Pres(x[2])]>> : x \in IocCorruptions(env, cs[i].t, v[i][1])} : i \in {j \in DOMAIN cs : IsPres(v[j])}}
+    [] T.k \in {"SEQOF", "SETOF"} ->
+         UNION {{<<x[1], [v EXCEPT ![i] = x[2]]>> : x \in IocCorruptions(env, T.t, v[i])} : i \in DOMAIN v}
     [] OTHER -> {}
 =============================================================================
